@@ -44,6 +44,17 @@ theorem accepted_ModifyLPRates_safe (m : MsgModifyLPRates) (c : Ctx) (s : StVals
   rw [LpInv_iff]
   exact ⟨a, by simp only [applyModifyLPRates]; omega, b⟩
 
+/-- Family 1, liquidity protection: the only permissionless write to the state this hook reads is
+    `MustUpdateLiquidityProtectionThreshold` (inside a swap).  Whatever the amount and direction, a swap
+    that completes keeps the invariant (a panicking one is discarded with its transaction), and buying
+    the native asset never panics. -/
+theorem lp_user_swap_preserves (lp lp' : LiqProt) (sell : Bool) (v : Nat) (h : LpInv lp = true)
+    (hr : lpUserUpdate lp sell v = .ok lp') : LpInv lp' = true :=
+  lpUserUpdate_inv lp lp' sell v h hr
+
+theorem lp_user_buy_total (lp : LiqProt) (v : Nat) (h : LpInv lp = true) : ∃ lp', lpUserUpdate lp false v = .ok lp' :=
+  lpUserUpdate_buy_ok lp v h
+
 /-! ### the ratio-shifting policy (PMTP) and the whole clp BeginBlocker -/
 
 /-- `hooks_total` for the clp BeginBlocker: under the invariants (`LpInv`, `PmtpInvP`), at a height
@@ -204,6 +215,8 @@ example : acceptsAddRewardPeriod ⟨[⟨false, { rp1 with start := 0, end_ := 2 
 example : acceptsAddRewardPeriod ⟨[⟨false, { rp1 with alloc := some (2 ^ 256 - 1) }⟩]⟩ default {} = false := by decide +kernel
 example : acceptsAddRewardPeriod ⟨[⟨false, { rp1 with alloc := none }⟩]⟩ default {} = false := by decide +kernel
 example : lpUpdate ⟨true, 1000, 7, 3⟩ = .ok ⟨true, 1000, 340, 3⟩ := by decide
+example : lpUserUpdate ⟨true, 1000, 7, 3⟩ true 5 = .ok ⟨true, 1000, 2, 3⟩ := by decide
+example : lpUserUpdate ⟨true, 1000, 7, 3⟩ false 5000 = .ok ⟨true, 1000, 1000, 3⟩ := by decide
 example : acceptsUpdateLPParams ⟨1000, 3, true⟩ default {} = true := by decide
 example : acceptsModifyLPRates ⟨7⟩ default { lpMax := 1000 } = true := by decide
 /- negative witness (defect F4 on the unrepaired tree): current > max makes the hook panic -/
